@@ -5,6 +5,7 @@ import Driver.Meta
 import Driver.HH
 import Driver.C15
 import Driver.C12
+import Driver.Shard
 
 /-- one line in, one line out; the handler may carry state -/
 structure Handler where
@@ -20,6 +21,7 @@ def handlers : List (String × Handler) := [
   ("c13", stateless Driver.C13.handle),
   ("c15", stateless Driver.C15.handle),
   ("meta", ⟨Driver.MetaD.St, {}, Driver.MetaD.step⟩),
+  ("shard", ⟨InfluxVerif.ShardSpec.St, {}, Driver.ShardD.step⟩),
   ("hh", ⟨InfluxVerif.HH.Q, Driver.HHD.init 1024 100000, Driver.HHD.step⟩)
 ]
 
